@@ -386,4 +386,5 @@ func RunC05(c *core.Ctx) {
 		}
 	}
 	runC05Protocol(c)
+	runC05Device(c)
 }
